@@ -17,6 +17,10 @@ use crate::{
     variable_assigment::VariableAssignment,
 };
 
+/// Variable pointers are resolved to their final target when they are created,
+/// so following one never takes more than a few steps.
+const MAX_VARIABLE_POINTER_CHAIN: usize = 64;
+
 #[derive(Clone)]
 pub(crate) struct VariablesState {
     pub global_variables: HashMap<String, Rc<Value>>,
@@ -122,7 +126,15 @@ impl VariablesState {
             // Assign to an existing variable pointer
             // Then assign to the variable that the pointer is pointing to by name.
             // De-reference variable reference to point to
+            let mut chain_length = 0;
             loop {
+                chain_length += 1;
+                if chain_length > MAX_VARIABLE_POINTER_CHAIN {
+                    return Err(StoryError::InvalidStoryState(format!(
+                        "Variable pointer '{name}' points back to itself."
+                    )));
+                }
+
                 let existing_pointer = self.get_raw_variable_with_name(&name, context_index);
 
                 match existing_pointer {
@@ -319,19 +331,26 @@ impl VariablesState {
     }
 
     pub fn get_variable_with_name(&self, name: &str, context_index: i32) -> Option<Rc<Value>> {
-        let var_value = self.get_raw_variable_with_name(name, context_index);
-        // Get value from pointer?
-        if let Some(vv) = var_value.clone()
-            && let Some(var_pointer) = Value::get_value::<&VariablePointerValue>(vv.as_ref())
-        {
-            return self.value_at_variable_pointer(var_pointer);
+        let mut var_value = self.get_raw_variable_with_name(name, context_index);
+
+        // Get value from pointer? Pointers are resolved when they are created,
+        // so a chain longer than this is a loop and has no value.
+        for _ in 0..MAX_VARIABLE_POINTER_CHAIN {
+            let pointed_to = match var_value.as_ref() {
+                Some(vv) => Value::get_value::<&VariablePointerValue>(vv.as_ref())
+                    .map(|p| (p.variable_name.clone(), p.context_index)),
+                None => None,
+            };
+
+            match pointed_to {
+                Some((name, context_index)) => {
+                    var_value = self.get_raw_variable_with_name(&name, context_index);
+                }
+                None => return var_value,
+            }
         }
 
-        var_value
-    }
-
-    fn value_at_variable_pointer(&self, pointer: &VariablePointerValue) -> Option<Rc<Value>> {
-        self.get_variable_with_name(&pointer.variable_name, pointer.context_index)
+        None
     }
 
     pub fn set_callstack(&mut self, callstack: Rc<RefCell<CallStack>>) {
